@@ -305,6 +305,11 @@ fn gen_download(rng: &mut Rng, prof: &Profile, ctx: &Ctx, i: usize) -> Option<Ve
 }
 
 fn gen_resp(rng: &mut Rng, prof: &Profile, ctx: &Ctx) -> (Option<Resp>, Option<usize>) {
+    gen_resp_pref(rng, prof, ctx, None)
+}
+
+/// `prefer`: a patch number to offer if it is one of the history's numbers.
+fn gen_resp_pref(rng: &mut Rng, prof: &Profile, ctx: &Ctx, prefer: Option<usize>) -> (Option<Resp>, Option<usize>) {
     if rng.chance(prof.net_fail) {
         return (None, None);
     }
@@ -326,7 +331,10 @@ fn gen_resp(rng: &mut Rng, prof: &Profile, ctx: &Ctx) -> (Option<Resp>, Option<u
         let contradictory = rng.chance(15);
         return (Some(Resp { available: contradictory, patch: None, rolled_back }), None);
     }
-    let i = rng.below(ctx.numbers.len());
+    let i = match prefer.and_then(|n| ctx.numbers.iter().position(|&k| k == n)) {
+        Some(i) => i,
+        None => rng.below(ctx.numbers.len()),
+    };
     let offer = Offer {
         number: ctx.numbers[i],
         hash: gen_hash(rng, ctx, i),
@@ -504,8 +512,19 @@ pub fn gen_op(rng: &mut Rng, prof: &Profile, ctx: &Ctx, gs: &mut GenState, runne
 }
 
 /// A concurrent episode: an update against 1–3 calls of another thread, with a random schedule.
-fn gen_conc(rng: &mut Rng, prof: &Profile, ctx: &Ctx) -> Op {
-    let upd = gen_update(rng, prof, ctx);
+fn gen_conc(rng: &mut Rng, prof: &Profile, ctx: &Ctx, runner: &Runner) -> Op {
+    // half of the episodes offer the patch that is booting right now (if any): the interesting races are
+    // between its download / install and its own launch report
+    let booting: Option<usize> = runner.last_obs.as_ref().and_then(|o| match &o.pj {
+        JFile::Ok(p) => p.booting.as_ref().map(|m| m.number),
+        _ => None,
+    });
+    let prefer = if rng.chance(50) { booting } else { None };
+    let upd = {
+        let (resp, idx) = gen_resp_pref(rng, prof, ctx, prefer);
+        let dl = match idx { Some(i) => gen_download(rng, prof, ctx, i), None => None };
+        Op::Update { chan: gen_chan(rng, ctx), resp, dl }
+    };
     let n = 1 + rng.below(3);
     let mut bops = Vec::new();
     for _ in 0..n {
@@ -519,13 +538,22 @@ fn gen_conc(rng: &mut Rng, prof: &Profile, ctx: &Ctx) -> Op {
             _ => Op::Start,
         });
     }
-    let sched: Vec<u8> = (0..16).map(|_| rng.below(2) as u8).collect();
+    // schedules: half random bits; half "the other thread runs in one gap of the update": every gap of the
+    // update (up to its last section) is then equally likely, which random bits make exponentially rare
+    let sched: Vec<u8> = if rng.chance(50) {
+        (0..16).map(|_| rng.below(2) as u8).collect()
+    } else {
+        let gap = rng.below(9);
+        let mut v = vec![0u8; gap];
+        v.extend(std::iter::repeat(1u8).take(8));
+        v
+    };
     Op::Conc { upd: Box::new(upd), bops, sched }
 }
 
 fn gen_mid(rng: &mut Rng, prof: &Profile, ctx: &Ctx, gs: &mut GenState, runner: &Runner) -> Op {
     if rng.chance(prof.conc) {
-        return gen_conc(rng, prof, ctx);
+        return gen_conc(rng, prof, ctx, runner);
     }
     if rng.chance(prof.damage) {
         return gen_damage(rng, ctx, runner);
